@@ -557,7 +557,16 @@ impl Ctx<'_> {
             self.w.stats.ill_formed.fetch_add(1, Ordering::Relaxed);
         }
         let unspec = op.which == CL_RGB && (op.t == 0 || op.p == 0);
-        let res = catch_unwind(AssertUnwindSafe(|| float_obj(op.which, &bits, op.geo[1] as usize, op.geo[2] as usize, op.t, op.p)));
+        let res = catch_unwind(AssertUnwindSafe(|| {
+            if op.consume == 1 {
+                // the caller's vector has spare capacity (it was built by pushing)
+                let mut v: Vec<[f32; 3]> = Vec::with_capacity(bits.len() + 1 + (op.dataseed >> 8) as usize % 9);
+                v.extend(bits.iter().map(|b| [f32::from_bits(b[0]), f32::from_bits(b[1]), f32::from_bits(b[2])]));
+                crate::model::float_obj_from_vec(op.which, v, op.geo[1] as usize, op.geo[2] as usize, op.t, op.p)
+            } else {
+                float_obj(op.which, &bits, op.geo[1] as usize, op.geo[2] as usize, op.t, op.p)
+            }
+        }));
         match res {
             Err(p) => {
                 self.w.stats.unwinds.fetch_add(1, Ordering::Relaxed);
